@@ -22,7 +22,7 @@
 namespace Pharmpy.C11
 
 inductive Err where
-  | keyError | valueError | indexError | attributeError
+  | keyError | valueError | indexError | attributeError | typeError | notImplementedError
   deriving DecidableEq, Repr
 
 section generic
@@ -443,5 +443,96 @@ def applyAssignments {V : Type} (values : List (String × V)) :
     match e.name? with
     | .error k => .error k
     | .ok s => applyAssignments ((values.filter (·.1 ≠ s)) ++ [(s, v)]) rest
+
+/-! ### parameters_sdcorr (and its inverse) over exact values with an abstract square root
+
+  A dictionary of parameter values is a function `String → Option Rat`; `sqrt` is abstract.
+  Every value is read from the **original** dictionary `vals` (`sigma_sym.subs(values)`,
+  `variance.subs(values)`), never from the dictionary being written. -/
+
+abbrev Dict := String → Option Rat
+
+def fupd (f : Dict) (s : String) (v : Rat) : Dict := fun t => if t = s then some v else f t
+
+/-- `newdict[name] = value` for every assignment, in order. -/
+def applyF (f : Dict) (A : List (String × Rat)) : Dict := A.foldl (fun f p => fupd f p.1 p.2) f
+
+/-- `(i, j)` for `i in range(rows)` for `j in range(cols)`. -/
+def positions (d : Dist Entry) : List (Nat × Nat) :=
+  (List.range (matRows d.var)).flatMap fun i => (List.range (matCols d.var)).map fun j => (i, j)
+
+/-- The symbol at a position of the symbolic matrix (`elt.name`). -/
+def symAt (d : Dist Entry) (i j : Nat) : Option String :=
+  match ent d.var i j with
+  | .sym s => some s
+  | .num _ => none
+
+/-- Is the entry at a position numeric once `vals` is substituted? -/
+def hasVal (vals : Dict) (d : Dist Entry) (i j : Nat) : Bool :=
+  match ent d.var i j with
+  | .sym s => (vals s).isSome
+  | .num _ => true
+
+/-- `sigma[i, j]` = the entry with `vals` substituted. -/
+def valAt (vals : Dict) (d : Dist Entry) (i j : Nat) : Rat :=
+  match ent d.var i j with
+  | .sym s => (vals s).getD 0
+  | .num q => q
+
+/-- `corr[i, j]` of `cov2corr(sigma)` off the diagonal, `sqrt(sigma[i, i])` on it. -/
+def fwdVal (sqrt : Rat → Rat) (vals : Dict) (d : Dist Entry) (i j : Nat) : Rat :=
+  if i ≠ j then
+    (if valAt vals d i j = 0 then 0
+     else valAt vals d i j / (sqrt (valAt vals d i i) * sqrt (valAt vals d j j)))
+  else sqrt (valAt vals d i i)
+
+/-- The exception one distribution raises in `parameters_sdcorr`, if any. -/
+def sdcorrErr (vals : Dict) (d : Dist Entry) : Option Err :=
+  if d.joint then
+    if (positions d).any (fun p => !hasVal vals d p.1 p.2) then some .typeError       -- `to_numpy` of a symbolic matrix
+    else if (positions d).any (fun p => (symAt d p.1 p.2).isNone) then some .valueError  -- `elt.name` of a number
+    else none
+  else match ent d.var 0 0 with
+    | .sym _ => none
+    | .num _ => some .notImplementedError
+
+/-- The assignments `newdict[name] = …` one distribution performs. -/
+def sdcorrAsg (sqrt : Rat → Rat) (vals : Dict) (d : Dist Entry) : List (String × Rat) :=
+  if d.joint then
+    (positions d).filterMap fun p => (symAt d p.1 p.2).map fun s => (s, fwdVal sqrt vals d p.1 p.2)
+  else match ent d.var 0 0 with
+    | .sym s => if (vals s).isSome then [(s, sqrt ((vals s).getD 0))] else []
+    | .num _ => []
+
+/-- `RandomVariables.parameters_sdcorr(values)`. -/
+def sdcorr (sqrt : Rat → Rat) (vals : Dict) (rvs : RVs Entry) : Except Err Dict :=
+  match rvs.findSome? (sdcorrErr vals) with
+  | some e => .error e
+  | none => .ok (applyF vals (rvs.flatMap (sdcorrAsg sqrt vals)))
+
+/-- The inverse conversion (sd/corr → var/cov) with the same structure: `sd²` on the diagonal,
+    `corr · sd_i · sd_j` off it, every value read from the sd/corr dictionary `D`. -/
+def invVal (D : Dict) (d : Dist Entry) (i j : Nat) : Rat :=
+  if i ≠ j then valAt D d i j * valAt D d i i * valAt D d j j
+  else valAt D d i i * valAt D d i i
+
+def sdcorrInvAsg (D : Dict) (d : Dist Entry) : List (String × Rat) :=
+  if d.joint then
+    (positions d).filterMap fun p => (symAt d p.1 p.2).map fun s => (s, invVal D d p.1 p.2)
+  else match ent d.var 0 0 with
+    | .sym s => if (D s).isSome then [(s, (D s).getD 0 * (D s).getD 0)] else []
+    | .num _ => []
+
+def sdcorrInv (D : Dict) (rvs : RVs Entry) : Dict := applyF D (rvs.flatMap (sdcorrInvAsg D))
+
+/-- The variant that substitutes with the dictionary being written (kept for the witness theorem):
+    a parameter converted by an earlier distribution is read again as if it were a variance. -/
+def sdcorrAcc (sqrt : Rat → Rat) (vals : Dict) (rvs : RVs Entry) : Dict :=
+  rvs.foldl (fun f d => applyF f (sdcorrAsg sqrt f d)) vals
+
+/-- Decidable certificate: every parameter is assigned one value only (whatever distribution
+    assigns it) — the role of a shared parameter is the same everywhere. -/
+def agree (A : List (String × Rat)) : Bool :=
+  A.all fun p => A.all fun q => p.1 != q.1 || p.2 == q.2
 
 end Pharmpy.C11
